@@ -141,6 +141,7 @@ type Cluster struct {
 	WarnOnUnprepared bool              // UNPREPARED answers carry a warning (v4+)
 	PreparedColumns  int               // > 0: PREPARED results describe that many result columns
 	EchoPad          int               // > 0: successful results carry that many bytes of padding
+	TextOnlyIDs      bool              // prepared ids are the MD5 of the statement text alone (the keyspace does not enter)
 }
 
 type Host struct {
@@ -1117,6 +1118,11 @@ func (c *Conn) handle(f *wire.Frame) bool {
 		}
 		cl.mu.Unlock()
 		sum := md5.Sum([]byte(ks + "\x00" + m.Query))
+		cl.mu.Lock()
+		if cl.TextOnlyIDs {
+			sum = md5.Sum([]byte(m.Query)) // ids that depend on the statement text alone (as some backends and mocks do)
+		}
+		cl.mu.Unlock()
 		// A backend is free to hand out whatever ids it likes. ForceID makes PREPAREs carrying given tokens share
 		// one id, so that a history can redefine what an id means.
 		cl.mu.Lock()
